@@ -141,6 +141,17 @@ fn run_script<E: EndianParse, P: ParseAt + PartialEq + Debug>(e: E, class: Class
                 if k != want {
                     return Err(ctx(format!("iter().skip({}).step_by({}) yielded {} items, expected {}", skip, step, k, want)));
                 }
+                let mut part = t().iter();
+                let mut consumed = 0usize;
+                for _ in 0..skip.min(n + 1) {
+                    if part.next().is_some() {
+                        consumed += 1;
+                    }
+                }
+                let rest = part.count();
+                if consumed + rest != n {
+                    return Err(ctx(format!("count() on an iterator that had yielded {} items returned {}, expected {}", consumed, rest, n - consumed)));
+                }
                 if t().iter().count() != n || t().iter().last().is_some() != (n > 0) {
                     return Err(ctx("iter().count()/last() disagree with len()".to_string()));
                 }
